@@ -2,10 +2,22 @@
 """Regenerates MANIFEST.json from the table below (kept in one place so that it stays valid)."""
 import json, sys
 CHECKS = {
+ "C03": dict(
+   text="Bounded symbolic model checking of the real Kyber/ML-KEM arithmetic and codec code: barrettReduce/csubq/montReduce/toMont over their entire (documented) domains, CompressTo/Decompress for d in {1,4,5,10,11} and Pack/Unpack on whole symbolic polynomials against FIPS 203 Compress_d/Decompress_d/ByteEncode_d written with exact division and bit-by-bit packing.",
+   note="Decides the kernels and codecs only (not end-to-end bytes for all seeds, which needs SHAKE over symbolic data); generic (purego) code paths; AVX2 back-ends outside; go/ssa and executor semantics trusted.",
+   ref="§4 C03"),
  "C08": dict(
-   text="Bounded symbolic model checking of the real hpke Seal/Open/increment/calcNonce/marshal code: one step from an arbitrary 96-bit sequence number and base nonce (all values symbolic) decided by z3/cvc5; induction over the step covers histories of any length.",
+   text="Bounded symbolic model checking of the real hpke Seal/Open/increment/calcNonce code: one step from an arbitrary 96-bit sequence number and base nonce (all values symbolic) decided by z3/cvc5; induction over the step covers histories of any length.",
    note="AEAD modelled as uninterpreted function with free success flag; Nn=12; plaintext lengths 0..2; go/ssa (x/tools v0.29.0) and the executor's instruction semantics are trusted; purego build tags.",
    ref="§4 C08"),
+ "C10": dict(
+   text="Panic-freedom obligations (index, slice bounds, nil dereference, explicit panic) decided by SMT for untrusted-input entry points run on symbolic byte strings of every length in a stated range; counterexamples replayed natively.",
+   note="Entry points covered so far are listed in evidence; input lengths bounded per harness; field arithmetic below decoders is an uninterpreted function (its inputs are fixed-size arrays).",
+   ref="§4 C10"),
+ "C12": dict(
+   text="For GF(2^255-19): add, sub, neg, addsub, mul, sqr, red64, modp, IsZero, ToBytes, cmov, cswap of the real generic code proved congruent/canonical for every byte string via linear-integer carry equations (64x64 partial products as shared bounded integers).",
+   note="Partial products abstracted (sound for unsat; abstract counterexamples are concretised when possible); generic Go code only so far (assembly: see C14); other fields are being added.",
+   ref="§4 C12"),
 }
 NOT_APPLICABLE = {}
 def main():
